@@ -150,9 +150,82 @@ class RngAnalysis:
                             changed = True
         return self
 
+    def _param_const_int(self, fi, pname, depth=0) -> bool:
+        """a parameter of fi that is never re-bound and that every call site in the repository (and the default, where a call omits it)
+        binds to an integer constant"""
+        if depth > 3:
+            return False
+        a = fi.node.args
+        allp = a.posonlyargs + a.args + a.kwonlyargs
+        names = [x.arg for x in allp]
+        if pname not in names or a.vararg is not None or a.kwarg is not None:
+            return False
+        for n in ast.walk(fi.node):
+            if isinstance(n, (ast.Assign, ast.AugAssign, ast.AnnAssign, ast.For)):
+                tg = n.targets if isinstance(n, ast.Assign) else [n.target]
+                if any(isinstance(x, ast.Name) and x.id == pname for t in tg for x in ast.walk(t)):
+                    return False
+        pos = [x.arg for x in a.posonlyargs + a.args]
+        is_method = fi.cls is not None and pos and pos[0] in ("self", "cls")
+        if is_method:
+            pos = pos[1:]
+        defaults = {}
+        for x, d in zip((a.posonlyargs + a.args)[len(a.posonlyargs + a.args) - len(a.defaults):], a.defaults):
+            defaults[x.arg] = d
+        for x, d in zip(a.kwonlyargs, a.kw_defaults):
+            if d is not None:
+                defaults[x.arg] = d
+        short = fi.name.split(".")[-1]
+        n_sites = 0
+
+        class _Ctx:
+            pass
+        for m in self.repo.modules.values():
+            if m.is_snake:
+                continue
+            for fn in [x for x in ast.walk(m.tree) if isinstance(x, (ast.FunctionDef, ast.AsyncFunctionDef))] + [m.tree]:
+                for c in ast.walk(fn):
+                    if not isinstance(c, ast.Call):
+                        continue
+                    f_ = c.func
+                    if not ((isinstance(f_, ast.Name) and f_.id == short and not is_method) or
+                            (isinstance(f_, ast.Attribute) and f_.attr == short and is_method)):
+                        continue
+                    if fn is m.tree and any(c in list(ast.walk(g)) for g in ast.walk(m.tree) if isinstance(g, (ast.FunctionDef, ast.AsyncFunctionDef))):
+                        continue            # counted with its enclosing function
+                    if any(isinstance(x, ast.Starred) for x in c.args) or any(k.arg is None for k in c.keywords):
+                        return False
+                    n_sites += 1
+                    bound = None
+                    if pname in pos and pos.index(pname) < len(c.args):
+                        bound = c.args[pos.index(pname)]
+                    for k in c.keywords:
+                        if k.arg == pname:
+                            bound = k.value
+                    if bound is None:
+                        bound = defaults.get(pname)
+                    if bound is None:
+                        return False
+                    ctx_ = _Ctx()
+                    ctx_.module = m
+                    ctx_.node = fn if fn is not m.tree else None
+                    ctx_.cls = None
+                    ctx_.name = getattr(fn, "name", "<module>")
+                    if isinstance(bound, ast.Name) and ctx_.node is not None and bound.id in [x.arg for x in ctx_.node.args.args]:
+                        return False        # passed on from another parameter: not followed further
+                    if not self._const_int(ctx_, bound):
+                        return False
+        if n_sites == 0:
+            d = defaults.get(pname)
+            return d is not None and isinstance(d, ast.Constant) and isinstance(d.value, int) and not isinstance(d.value, bool)
+        return True
+
     def _const_int(self, fi, e) -> bool:
         if isinstance(e, ast.Constant) and isinstance(e.value, int) and not isinstance(e.value, bool):
             return True
+        if isinstance(e, ast.Name) and getattr(fi, "node", None) is not None and hasattr(fi, "where") and \
+                e.id in [x.arg for x in fi.node.args.posonlyargs + fi.node.args.args + fi.node.args.kwonlyargs]:
+            return self._param_const_int(fi, e.id)
         if isinstance(e, (ast.Name, ast.Attribute)):
             try:
                 v = self.repo.const_value(fi.module, e)
